@@ -7,6 +7,8 @@ IDS="$@"; [ -z "$IDS" ] && IDS=$(ls seeded)
 for id in $IDS; do
   P=/verif/seeded/$id/patch.diff
   CHECKS=$(python3 -c "import json;print(json.load(open('/verif/seeded/$id/meta.json')).get('checks_run','').replace(' quick',''))")
+  SUP=$(python3 -c "import json;print('yes' if json.load(open('/verif/seeded/$id/meta.json')).get('superseded') else 'no')")
+  [ "$SUP" = yes ] && { echo "$id: superseded (see meta.json), skipped"; continue; }
   git -C /repo apply "$P" 2>/dev/null || { echo "$id: PATCH DOES NOT APPLY"; continue; }
   hit=no
   for c in $CHECKS; do
